@@ -140,8 +140,18 @@ def run_shards(binary, spec, pid, tier, seed, scratch, replay=None, part_index=0
     return procs, outdir, time.time() + t.get("timeout", 3000) + 60
 
 
-def wait_shards(procs, deadline):
+def wait_shards(procs, deadline, outdir=None):
     results = {}
+    if os.environ.get("VERIF_FIRST_ONLY") and outdir:
+        # sweeps over seeded changes and mutants only ask "caught or not": once one shard has finished with a
+        # violation on file, the others are stopped (never used by the registered commands)
+        while time.time() < deadline and any(p.poll() is None for _, p, _ in procs):
+            if any(p.poll() not in (None, 0) for _, p, _ in procs) and glob.glob(os.path.join(outdir, "violation-*.json")):
+                for _, p, _ in procs:
+                    if p.poll() is None:
+                        p.kill()
+                break
+            time.sleep(1)
     for sh, p, logf in procs:
         try:
             rc = p.wait(timeout=max(1, deadline - time.time()))
@@ -323,8 +333,11 @@ def cmd_check(pid, tier, replay=None):
             started.append((pi, procs, deadline))
             if ps.get("rapid", True) and not replay:
                 want += tier_of(ps, tier).get("checks", 0) * tier_of(ps, tier).get("shards", 16)
+        if os.environ.get("VERIF_FIRST_ONLY") and len(started) > 1:
+            allp = [x for _, procs, _ in started for x in procs]
+            wait_shards(allp, max(d for _, _, d in started), outdir)
         for pi, procs, deadline in started:
-            for sh, rc in wait_shards(procs, deadline).items():
+            for sh, rc in wait_shards(procs, deadline, outdir).items():
                 results["%d.%d" % (pi, sh)] = rc
         fuzz_info = {}
         fz = spec.get("fuzz", {}).get(tier)
@@ -585,7 +598,7 @@ def cmd_seeded(ids, confirm):
                     os.remove(os.path.join(ddir, "zz_seed_demo_test.go"))
                     line += " demo(with)=%s demo(without)=%s" % ("fails" if r1.returncode != 0 else "PASSES?!", "passes" if r2.returncode == 0 else "FAILS?!")
             e2 = dict(os.environ)
-            e2.update({"VERIF_REPO": base, "VERIF_NO_EVIDENCE": "1"})
+            e2.update({"VERIF_REPO": base, "VERIF_NO_EVIDENCE": "1", "VERIF_FIRST_ONLY": "1"})
             verdicts = []
             for prop in [meta["property"]] + meta.get("also_check", []):
                 t0 = time.time()
